@@ -4,7 +4,8 @@
 From Coq Require Import List.
 From Coq.Strings Require Import Byte.
 From GI Require Import Lib.Bytes Gen.DiffConsts Diff.Diff Diff.DiffSpec Diff.DiffBase Diff.DiffProofs
-  Diff.TgsProofs Diff.DiffParse Diff.ParseProofs Diff.CtxFacts Diff.BytesFacts Diff.DiffFacts.
+  Diff.TgsProofs Diff.DiffParse Diff.ParseProofs Diff.CtxFacts Diff.BytesFacts Diff.DiffFacts
+  Diff.CoverFacts.
 Import ListNotations.
 
 Theorem C08_diff_nil_iff : forall oldName old newName new,
@@ -156,3 +157,41 @@ Theorem C08_source_shapes :
     [x6e;x61;x6d;x65;x32]; [x5b;x5d;x62;x79;x74;x65;x28;x74;x65;x78;x74;x32;x29] ].
 Proof. exact (conj lines_sep_shape (conj diff_fprintf_args_shape cmp_diff_args_shape)). Qed.
 Print Assumptions C08_source_shapes.
+
+(* ---- third wave: direct readings of the property sentence.  The model is over immutable lists:
+   WHERE the two texts live (views of one buffer, spare capacity, reuse of the returned storage by
+   later or concurrent calls) is a run-time dimension exercised by the runner only. ---- *)
+
+Theorem C08_hunks_cover_changes : forall x y hs, diff_hunks x y = Ok hs ->
+  exists gaps, length gaps = S (length hs) /\
+               x = weave gaps (old_sides hs) /\ y = weave gaps (new_sides hs).
+Proof. exact hunks_cover_changes. Qed.
+Print Assumptions C08_hunks_cover_changes.
+
+Theorem C08_outside_hunks_equal : forall x y hs i, diff_hunks x y = Ok hs ->
+  i < length x -> ~ in_old_range hs i ->
+  exists j, j < length y /\ nth_error y j = nth_error x i /\ ~ in_new_range hs j.
+Proof. exact outside_hunks_equal. Qed.
+Print Assumptions C08_outside_hunks_equal.
+
+Theorem C08_diff_bytes_shape : forall oldName old newName new out,
+  diff oldName old newName new = Ok out -> old <> new ->
+  exists hs, diff_hunks (lines old) (lines new) = Ok hs /\ hs <> [] /\
+    out = [x64; x69; x66; x66; x20] ++ oldName ++ [x20] ++ newName ++ [x0a] ++
+          [x2d; x2d; x2d; x20] ++ oldName ++ [x0a] ++
+          [x2b; x2b; x2b; x20] ++ newName ++ [x0a] ++
+          concat (map render_hunk hs).
+Proof. exact diff_bytes_shape. Qed.
+Print Assumptions C08_diff_bytes_shape.
+
+Theorem C08_text_patch : forall oldName old newName new out,
+  diff oldName old newName new = Ok out ->
+  patch_text oldName newName out old = Some new /\
+  unpatch_text oldName newName out new = Some old.
+Proof. exact text_patch. Qed.
+Print Assumptions C08_text_patch.
+
+Theorem C08_rediff_is_not_reverse : exists x y hs hs',
+  diff_hunks x y = Ok hs /\ diff_hunks y x = Ok hs' /\ removed hs' <> added hs.
+Proof. exact rediff_is_not_reverse. Qed.
+Print Assumptions C08_rediff_is_not_reverse.
